@@ -7,7 +7,9 @@ import itertools, math
 from fractions import Fraction
 from engine import Prop, fbits, bitsf, close, ratstr, parse_rat
 
-SLACK = 1e-9          # the oracle accepts distance <= eps * (1 + SLACK): float rounding of the code's own distances
+SLACK = 1e-9          # the oracle accepts distance <= eps * (1 + SLACK) + ABS_SLACK * (largest |coordinate|): float rounding of the
+ABS_SLACK = 1e-13     # code's own distances -- relative to eps, and absolute (differences of coordinates of magnitude M carry an error ~1e-16 M,
+                      # which dominates when eps itself is of that order: e.g. (95.68,61.18),(11.58,84.09),(-72.52000000000001,107.0), eps = 3.55e-15)
 TOLS = [1e-3, 1e-2, 0.1, 0.25, 0.5, 0.7, 0.75, 1, 1.0, 1.25, 1.5, 2, 2.5, 3, 5, 10.0, 100, 1e3]
 
 
@@ -128,7 +130,7 @@ class P(Prop):
     partial = []
     open_statements = [
         "IEEE rounding: T3 (field form), T4 and T5 are over a linearly ordered field with an exact sqrt; on floats the tolerance is sampled by the transfer "
-        "check with slack 1e-9 (T1, T2, T6 and the scalar-independent T3 do apply to the Float model as they assume nothing about the scalar)",
+        "check with relative slack 1e-9 on eps plus absolute slack 1e-13 x (largest |coordinate|) (T1, T2, T6 and the scalar-independent T3 do apply to the Float model as they assume nothing about the scalar)",
         "Visvalingam beyond the FIRST pass when areas are infinite or NaN, i.e. not below ARGMIN's initial minimum +inf (coordinates ~1e154 and more, not ENU tracks): "
         "T6' proves that the first pass removes the first fix when no area is below the sentinel; mixed columns and the later passes are only compared "
         "with the model (stream `wild`)",
@@ -774,10 +776,10 @@ class P(Prop):
             return "%s modified its input track (size %s -> %s)" % (name, n, out.get("input_size_after"))
         if algo == "dp":
             V = [(F(xs[i]), F(ys[i])) for i in kept]
-            lim = (F(tol) * (1 + F(SLACK))) ** 2
+            scale = max([abs(float(v)) for v in xs + ys] + [1.0])
+            lim = (F(tol) * (1 + F(SLACK)) + F(ABS_SLACK) * F(scale)) ** 2
             # sound shortcut for long tracks: a fix whose FLOAT distance is below tol by a margin (1e-6 relative, far above the rounding
             # error of the formula as long as tol is not tiny w.r.t. the coordinates) is within tol exactly; the others get the exact test
-            scale = max([abs(float(v)) for v in xs + ys] + [1.0])
             quick = n > 12 and float(tol) > 1e-6 * scale
             Vf = [(float(xs[i]), float(ys[i])) for i in kept]
             limf = float(tol) ** 2 * (1 - 1e-6)
